@@ -20,6 +20,7 @@ const WATCHDOG: Duration = Duration::from_secs(2);
 thread_local! {
     /// how many messages the server should wait for from the client before it stops (write tests)
     static EXPECT_FROM_CLIENT: std::cell::Cell<usize> = const { std::cell::Cell::new(0) };
+    static LATE_START_MS: std::cell::Cell<u64> = const { std::cell::Cell::new(0) };
     static LISTENER: std::net::TcpListener = {
         let l = std::net::TcpListener::bind("127.0.0.1:0").expect("bind");
         l.set_nonblocking(true).expect("nonblocking");
@@ -142,7 +143,9 @@ fn adaptor_reads_after(script: Vec<Msg>, total: usize, read_size: usize, delay_m
 /// Level 2: a connection over the adaptor. Returns the rendered results of read() until Disconnected/error.
 fn framed_reads(script: Vec<Msg>, expect_results: usize) -> Result<Vec<String>, String> {
     EXPECT_FROM_CLIENT.with(|c| c.set(0));
+    let late = LATE_START_MS.with(|c| c.get());
     let r = with_server(script, move |ws, close| Box::pin(async move {
+        if late > 0 { tokio::time::sleep(Duration::from_millis(late)).await; }
         let mut framed = Framed::new(Box::new(ws), Codec::new(Mode::Uncompressed));
         let mut out = vec![];
         for _ in 0..expect_results {
@@ -573,6 +576,48 @@ pub fn sites(tier: Tier) -> Vec<Site> {
                 }
             }));
     }
+    // 2b. "any number" of messages on one connection: 70 000 (a count kept in 16 bits wraps in there) - one frame per
+    // message, two frames per message, frames split over two messages, text and pings in between
+    sites.push(Site::new("many-messages", 2,
+        "one connection receiving 70 000 messages {SMALL, MSO + TINY_PING in one message, text, an MSO split over two messages, a ping} in a cycle, read early / read after the peer has sent for 300 ms: the results are those over TCP, then Disconnected",
+        move |i, acc| {
+            acc.eval();
+            let codec = Codec::new(Mode::Uncompressed);
+            let small: Vec<u8> = vec![8, 4, 1, 0, 0, 0, 0, 0];
+            let mso: Vec<u8> = vec![12, 11, 0, 0, 0, 0, 0, 0, b'h', b'i', 0, 0];
+            let ping: Vec<u8> = vec![4, 3, 5, 3];
+            let mut script: Vec<Msg> = vec![];
+            let mut frames: Vec<&Vec<u8>> = vec![];
+            let mut k = 0usize;
+            while script.len() < 70_000 {
+                match k % 5 {
+                    0 => { script.push(Msg::Bin(small.clone())); frames.push(&small); },
+                    1 => { let mut m = mso.clone(); m.extend_from_slice(&ping); script.push(Msg::Bin(m)); frames.push(&mso); frames.push(&ping); },
+                    2 => script.push(Msg::Text),
+                    3 => { script.push(Msg::Bin(mso[..5].to_vec())); script.push(Msg::Bin(mso[5..].to_vec())); frames.push(&mso); },
+                    _ => script.push(Msg::Ping),
+                }
+                k += 1;
+            }
+            let mut want: Vec<String> = frames.iter().map(|f| { let mut b = BytesMut::from(&f[..]); render(&match codec.decode(&mut b) { Ok(Some(p)) => Ok(p), Ok(None) => Err(insim::Error::Disconnected), Err(e) => Err(e) }) }).collect();
+            want.push("Err(Disconnected)".into());
+            let n = frames.len();
+            let replay = json!({"site": "many-messages", "index": i});
+            LATE_START_MS.with(|c| c.set(if i == 1 { 300 } else { 0 }));
+            let r = guard(|| framed_reads(script, n));
+            LATE_START_MS.with(|c| c.set(0));
+            match r {
+                Err(p) => acc.violate(i, "C20|connection|panic".into(), format!("70 000 messages: {p}"), replay),
+                Ok(Err(e)) => { eprintln!("MACHINERY: websocket harness failed: {e}"); std::process::exit(4); },
+                Ok(Ok(got)) => {
+                    if got == want { acc.class("same-as-tcp"); acc.nontrivial(); }
+                    else {
+                        let at = got.iter().zip(&want).position(|(a, b)| a != b).unwrap_or(got.len().min(want.len()));
+                        acc.violate(i, "C20|connection|results-differ-from-tcp".into(), format!("70 000 messages on one connection: result #{at} is {:?}, over TCP {:?} ({} results, {} due)", got.get(at).map(|s| s.chars().take(60).collect::<String>()), want.get(at).map(|s| s.chars().take(60).collect::<String>()), got.len(), want.len()), replay);
+                    }
+                },
+            }
+        }));
     // 3. every written packet leaves as exactly one binary message holding exactly its frame
     {
         let kinds = spec::load();
